@@ -24,7 +24,7 @@ ASSUMPTIONS = ['residual tolerance 1e-8 relative', 'repeated eigenvalues are exa
 
 def tmul(a, b):
     D = a.shape[0]
-    out = np.zeros((D,) + (a[0] @ b[0]).shape)
+    out = np.zeros((D,) + (a[0] @ b[0]).shape, dtype=np.result_type(a.dtype, b.dtype, float))
     for d in range(D):
         for c in range(d + 1):
             out[d] += a[c] @ b[d - c]
@@ -84,6 +84,9 @@ def make_case(rng, tier):
         c['x'] = ops.gen_square(rng, D, P, rng.randint(1, 4), 'spd')
     elif kind in ('lu', 'lu2', 'lu_factor'):
         c['x'] = ops.gen_square(rng, D, P, rng.randint(1, 4), 'general')
+        if rng.random() < 0.25:
+            # complex matrix polynomial (P L U = A involves no transposes: meaningful for complex data)
+            c['x'] = c['x'] + 0.5j * rand_coeffs(rng, c['x'].shape, -1, 1)
     elif kind == 'eigh':
         c['x'] = ops.gen_square(rng, D, P, rng.randint(1, 4), 'sym')
     elif kind == 'eigh_rep':
